@@ -32,6 +32,48 @@ static void save_line( FILE* out, bool r, const std::string& bytes, bool sum )
         fprintf( out, "save=%s bytes=%s\n", r ? "true" : "false", hex( bytes ).c_str() );
 }
 
+// --- independent byte patching of a saved image (no ELFIO involved)
+static unsigned long long rdf( const std::string& b, size_t off, int w, bool msb )
+{
+    unsigned long long v = 0;
+    for ( int i = 0; i < w; ++i ) {
+        unsigned char c = (unsigned char)b[off + ( msb ? i : w - 1 - i )];
+        v               = ( v << 8 ) | c;
+    }
+    return v;
+}
+static void wrf( std::string& b, size_t off, int w, bool msb, unsigned long long v )
+{
+    for ( int i = 0; i < w; ++i ) {
+        unsigned char c            = (unsigned char)( v >> ( 8 * i ) );
+        b[off + ( msb ? w - 1 - i : i )] = (char)c;
+    }
+}
+struct Img
+{
+    bool   c64, msb;
+    size_t shoff, shent, shnum, phoff, phent, phnum;
+    bool   ok;
+};
+static Img parse_img( const std::string& b )
+{
+    Img m{};
+    if ( b.size() < 52 )
+        return m;
+    m.c64 = b[4] == 2;
+    m.msb = b[5] == 2;
+    if ( m.c64 && b.size() < 64 )
+        return m;
+    m.phoff = (size_t)rdf( b, m.c64 ? 32 : 28, m.c64 ? 8 : 4, m.msb );
+    m.shoff = (size_t)rdf( b, m.c64 ? 40 : 32, m.c64 ? 8 : 4, m.msb );
+    m.phent = (size_t)rdf( b, m.c64 ? 54 : 42, 2, m.msb );
+    m.phnum = (size_t)rdf( b, m.c64 ? 56 : 44, 2, m.msb );
+    m.shent = (size_t)rdf( b, m.c64 ? 58 : 46, 2, m.msb );
+    m.shnum = (size_t)rdf( b, m.c64 ? 60 : 48, 2, m.msb );
+    m.ok    = true;
+    return m;
+}
+
 struct Ctx
 {
     std::unique_ptr<elfio>              elf;
@@ -378,6 +420,34 @@ static void run_case( const std::vector<Toks>& ops, FILE* out )
             }
             else
                 fprintf( out, "save=%s bytes=-\n", r ? "true" : "false" );
+        }
+        else if ( op == "forceoverlap" && t.size() == 3 ) {
+            // in the saved image: sh_offset of section j := sh_offset of section i
+            Img    m = parse_img( c.saved );
+            size_t i = (size_t)num( t[1] ), j = (size_t)num( t[2] );
+            size_t fo = m.c64 ? 24 : 16;
+            int    w  = m.c64 ? 8 : 4;
+            if ( !m.ok || i >= m.shnum || j >= m.shnum || m.shoff + ( std::max( i, j ) + 1 ) * m.shent > c.saved.size() ) {
+                fprintf( out, "bad-op\n" );
+                continue;
+            }
+            unsigned long long oi = rdf( c.saved, m.shoff + i * m.shent + fo, w, m.msb );
+            wrf( c.saved, m.shoff + j * m.shent + fo, w, m.msb, oi );
+            fprintf( out, "ok\n" );
+        }
+        else if ( op == "skew" && t.size() == 3 ) {
+            // in the saved image: p_vaddr of segment j += d
+            Img    m = parse_img( c.saved );
+            size_t j = (size_t)num( t[1] );
+            size_t fo = m.c64 ? 16 : 8;
+            int    w  = m.c64 ? 8 : 4;
+            if ( !m.ok || j >= m.phnum || m.phoff + ( j + 1 ) * m.phent > c.saved.size() ) {
+                fprintf( out, "bad-op\n" );
+                continue;
+            }
+            unsigned long long v = rdf( c.saved, m.phoff + j * m.phent + fo, w, m.msb );
+            wrf( c.saved, m.phoff + j * m.phent + fo, w, m.msb, v + num( t[2] ) );
+            fprintf( out, "ok\n" );
         }
         else if ( op == "reload" ) {
             c.ss   = std::make_unique<std::istringstream>( c.saved );
